@@ -160,6 +160,10 @@ func ruleTimerWaitWatchesContext(w *World, r *Run, rule string) {
 				case *ssa.Call:
 					if nm := ssaCallName(&x.Call); nm == "time.After" || nm == "time.Tick" {
 						timer = true
+						// a short constant pause (a back-off of at most a second) is not a poll interval
+						if k, ok := x.Call.Args[0].(*ssa.Const); ok && k.Value != nil && k.Int64() > 0 && k.Int64() <= int64(1e9) {
+							timer = false
+						}
 					}
 				}
 				if !timer {
